@@ -1355,7 +1355,9 @@ class ValidatorSet(TlbScheme):
         if tag == b'\x12':
             type_ = 'validators_ext'
             total_weight = cell_slice.load_uint(64)
-        list = cell_slice.load_dict(16, value_deserializer=ValidatorDescr.deserialize)
+            list = cell_slice.load_dict(16, value_deserializer=ValidatorDescr.deserialize)
+        else:  # validators#11: list:(Hashmap 16 ValidatorDescr), the root of the dictionary is stored inline
+            list = cell_slice.load_hashmap(16, value_deserializer=ValidatorDescr.deserialize)
 
         return cls(
             type_=type_,
